@@ -81,7 +81,11 @@ def physMonth (i : Inp α) (kind : Kind) (x : Var → α) (m : Nat) : List (Exce
   -- meat: without storage month by month (hence cumulatively); with storage the total and the monthly cap
   (if i.addMeat then
     (if !i.storeBetweenYears then [ex "meat-monthly" m (meatUse i x m - at' i.slaughtered m)]
-     else [ex "meat-total" m (cum (meatUse i x) m - i.meatSummed), ex "meat-monthly-cap" m (meatUse i x m - at' i.maxCulled m)])
+     else [ex "meat-total" m (cum (meatUse i x) m - i.meatSummed),
+           -- `maxCulled` is the running slaughter total the pipeline hands over (checked per instance against
+           -- the cumulative sum of the slaughter series): meat is never eaten before it is slaughtered
+           ex "meat-cumulative" m (cum (meatUse i x) m - at' i.maxCulled m),
+           ex "meat-monthly-cap" m (meatUse i x m - at' i.maxCulled m)])
    else []) ++
   -- monthly output caps
   (if i.addScp then [ex "scp-monthly" m (scpUse i x m - at' i.scp m)] else []) ++
@@ -119,16 +123,22 @@ def physFinal (i : Inp α) (kind : Kind) (x : Var → α) : List (Excess α) :=
 def physCore (i : Inp α) (kind : Kind) (x : Var → α) : List (Excess α) :=
   (List.range i.nmonths).flatMap (physMonth i kind x) ++ physFinal i kind x
 
-/-- the two clauses of C01 the code's rows do NOT enforce (known findings D10 and D14):
-    cumulative meat eaten ≤ cumulative slaughter when meat may be stored, and full use of stored
-    food in the regimes without storage between years -/
+/-- the clause of C01 the code's rows do NOT enforce (known finding D14): full use of stored food in
+    the regimes without storage between years.  (The other former gap, D10 — cumulative meat eaten ≤
+    cumulative slaughter with storage — was repaired in /repo and is now a clause of `physCore`;
+    `meatGapBefore` keeps the statement about the slaughter series itself for the check.) -/
 def physGap (i : Inp α) (kind : Kind) (x : Var → α) : List (Excess α) :=
-  (if i.addMeat && i.storeBetweenYears then
-    (List.range i.nmonths).map (fun m => ex "meat-cumulative" m (cum (meatUse i x) m - cum (at' i.slaughtered) m))
-   else []) ++
   (if kind = .toHumans && i.addStored && !i.storeBetweenYears then
     [ex "stored-full-use-no-storage" (i.nmonths - 1) (i.storedInitial - cum (storedUse i x) (i.nmonths - 1))]
    else [])
+
+/-- cumulative meat eaten against the cumulative *slaughter series* (what the property literally
+    says); equals the `meat-cumulative` clause of `physCore` whenever `maxCulled` is the running
+    total of `slaughtered`, which the check verifies per instance -/
+def meatVsSlaughter (i : Inp α) (x : Var → α) : List (Excess α) :=
+  if i.addMeat && i.storeBetweenYears then
+    (List.range i.nmonths).map (fun m => ex "meat-cumulative-vs-slaughter" m (cum (meatUse i x) m - cum (at' i.slaughtered) m))
+  else []
 
 /-- residual of a row at `x`: how far it is from holding (≤ 0 ⇔ holds) -/
 def rowExcess (x : Var → α) (r : Row α) : List (Excess α) :=
